@@ -166,6 +166,8 @@ def run(ctx):
 
   method_detection(ctx, 'C13.method-detection')
   inverse_lookup(ctx, 'C13.lookup')
+  from .common import rehoming_rules
+  rehoming_rules(ctx, 'C13.atomic', 'C13.metadata')
 
   # ---- C13.interactive
   im = ctx.func('config.interactive_mode')
